@@ -389,6 +389,15 @@ func (c *Ctx) Eval(kind string, v any) error {
 	if e == nil {
 		return nil
 	}
+	if strings.HasPrefix(e.Error(), "hx:") {
+		// the harness produced a case outside the domain: never a violation
+		c.mu.Lock()
+		if len(c.P.Inconclusive) < 5 {
+			c.P.Inconclusive = append(c.P.Inconclusive, "harness error in kind "+kind+": "+e.Error())
+		}
+		c.mu.Unlock()
+		return nil
+	}
 	if k := c.matchKnown(kind, raw, e); k != nil {
 		c.hitKnown(k, false)
 		return nil
